@@ -1584,3 +1584,34 @@ package hashgraph
 //@   call SetFrame assume[recoupled] s.coupled()
 //@   ensures[coupled] ret0 == nil ==> s.coupled()
 //@   ghostset G_lastBlock(s) := s.lastBlock
+
+//@ func (root *Root) Marshal() ([]byte, error)
+//@   trusted codec encoder: reads the root, writes nothing
+//@   requires root != nil
+//@   modifies nothing
+
+//@ func (s *BadgerStore) dbSetRoot(participant string, root *Root) error
+//@   requires s != nil && s.db != nil && root != nil
+//@   modifies G_raw(s.db), anyghost hashgraph.pend
+//@   call Marshal assert[of-root] __recv() == root
+//@   call Set assert[record] string(__argT[[]byte](0)) == string(participantRootKey(participant)) && __samebytes(__argT[[]byte](1), __lastretT[[]byte]("Marshal", 0))
+//@   ensures[written] ret0 == nil ==> __in(string(participantRootKey(participant)), G_raw(s.db))
+//@   ensures[others]  forall k string :: k != string(participantRootKey(participant)) ==> __in(k, G_raw(s.db)) == old(__in(k, G_raw(s.db))) && __seqeq(G_raw(s.db)[k], old(G_raw(s.db))[k])
+//@   ensures[fail]    ret0 != nil ==> __eq(G_raw(s.db), old(G_raw(s.db)))
+
+//@ func (s *BadgerStore) dbSetPeerSet(round int, peerSet *peers.PeerSet) error
+//@   requires s != nil && s.db != nil && peerSet != nil
+//@   modifies G_raw(s.db), anyghost hashgraph.pend
+//@   call Marshal assert[of-set] __recv() == peerSet
+//@   call Set assert[record] string(__argT[[]byte](0)) == string(peerSetKey(round)) && __samebytes(__argT[[]byte](1), __lastretT[[]byte]("Marshal", 0))
+//@   ensures[written] ret0 == nil ==> __in(string(peerSetKey(round)), G_raw(s.db))
+//@   ensures[others]  forall k string :: k != string(peerSetKey(round)) ==> __in(k, G_raw(s.db)) == old(__in(k, G_raw(s.db))) && __seqeq(G_raw(s.db)[k], old(G_raw(s.db))[k])
+//@   ensures[fail]    ret0 != nil ==> __eq(G_raw(s.db), old(G_raw(s.db)))
+
+//@ func (s *BadgerStore) dbSetRepertoire(peer *peers.Peer) error
+//@   requires s != nil && s.db != nil && peer != nil
+//@   modifies G_raw(s.db), anyghost hashgraph.pend
+//@   call Marshal assert[of-peer] __recv() == peer
+//@   call Set assert[record] string(__argT[[]byte](0)) == string(repertoireKey(peer.PubKeyString())) && __samebytes(__argT[[]byte](1), __lastretT[[]byte]("Marshal", 0))
+//@   ensures[written] ret0 == nil ==> __in(string(repertoireKey(peer.PubKeyString())), G_raw(s.db))
+//@   ensures[fail]    ret0 != nil ==> __eq(G_raw(s.db), old(G_raw(s.db)))
